@@ -666,6 +666,15 @@ def rule_r7(facts, col, bodies=None):
                 col.silent("C07.R7", key, body.where(ws.wbb), "work() result not matched directly")
                 continue
             cancels = {bb for bb, t in body.calls_to(CANCEL)}
+            # ... or a small helper of the runner that cancels on every path (`abort_graph(&token, &err)`)
+            for bb, t in body.calls():
+                for q in Body.callee_qs(t):
+                    for hb in facts.by_q.get(q, []):
+                        if hb.kind == "closure" or hb.file not in ("src/mtgraph.rs", "src/graph.rs"):
+                            continue
+                        cc = {b2 for b2, t2 in hb.calls_to(CANCEL)}
+                        if cc and (0 in cc or not (hb.reachable(0, avoid=cc) & set(hb.return_blocks()))):
+                            cancels.add(bb)
             # inspect_err(|e| { ..; cancel_token.cancel(); }) on the work result: runs exactly on Err, before the `?`
             via_inspect = False
             for bb, t in body.calls():
